@@ -14,7 +14,7 @@
 namespace am {
 inline std::atomic<long> fa{0}, ff{0}, oa{0}, oab{0}, of{0}, ofb{0};
 inline thread_local bool t_count = true;   // false: the harness's own bookkeeping
-inline thread_local bool t_frame = false;  // true: inside a call that creates a coroutine
+inline thread_local bool t_frame = false;  // true: inside a call that creates a coroutine, until its first allocation
 constexpr std::size_t HDR = 16;
 enum : std::uint64_t { TAG_NONE = 0x11, TAG_FRAME = 0x22, TAG_OTHER = 0x33 };
 struct snap {
@@ -34,6 +34,7 @@ void *operator new(std::size_t sz) {
     std::uint64_t tag = am::TAG_NONE;
     if (am::t_count) {
         if (am::t_frame) {
+            am::t_frame = false;   // the frame is the FIRST block a coroutine-creating call allocates; anything after it is not
             tag = am::TAG_FRAME;
             am::fa.fetch_add(1);
         } else {
@@ -65,6 +66,7 @@ void operator delete[](void *p, std::size_t) noexcept { ::operator delete(p); }
 #define protected public
 #define private public
 #include <cocls/async.h>
+#include <cocls/callback_awaiter.h>
 #include <cocls/future.h>
 #include <cocls/generator.h>
 #include <cocls/mutex.h>
@@ -110,6 +112,13 @@ struct MoveOnly {
     MoveOnly &operator=(MoveOnly &&o) noexcept { v = o.v; return *this; }
     MoveOnly(const MoveOnly &) = delete;
     MoveOnly &operator=(const MoveOnly &) = delete;
+};
+// a small non-allocating value with a user-provided copy constructor (hence no noexcept move constructor)
+struct CopyTag {
+    int id;
+    static inline int copies = 0;
+    explicit CopyTag(int i) : id(i) {}
+    CopyTag(const CopyTag &o) : id(o.id) { ++copies; }
 };
 // bulky payloads that do not allocate
 template <std::size_t N>
@@ -165,6 +174,8 @@ struct Ctx {
     mutex::ownership own[NM];
     std::optional<generator<int>> gens[NG];
     std::optional<generator<int, int>> gens2[NG];
+    std::optional<generator<int>::iterator> git[NG];
+    long gsteps[NG] = {};
     long gkind[NG] = {};   // 0 none, 1 generator<int>, 2 generator<int,int>
     int garg = 0;
     bool gtmp = false;
@@ -517,15 +528,55 @@ static Step begin(Ctx &c, const std::vector<long> &op) {
             if (mode == 2) st.sps = 1;
             with_fut(c, f, [&](auto &fut, auto &) {
                 if (c.heap) {
-                    am::t_frame = true;
+                    am::t_frame = c.heap;
                     auto a = waiter_heap(c, w, f, fut);
                     am::t_frame = false;
                     start_coro(c, std::move(a), mode);
                 } else {
-                    am::t_frame = true;
+                    am::t_frame = c.heap;
                     async<void> a = waiter_pool(g_pool, c, w, f, fut);
                     am::t_frame = false;
                     start_coro(c, std::move(a), mode);
+                }
+            });
+            return st;
+        }
+        case 9: {  // FAwaitCbA f w cap : callback_await / callback_await_alloc with closures of different kinds
+            if (!arity(4) || !inr(op[1], NF) || !inr(op[3], 3) || (c.fstate[op[1]] != 2 && c.fstate[op[1]] != 3)) return rej();
+            long f = op[1], w = op[2], cap = op[3];
+            st.snap = am::snap();
+            c.readers[f]++;
+            if (c.coro) st.sps = 1;   // the library detaches its coroutine: under the active queue the start is queued
+            with_fut(c, f, [&](auto &fut, auto &) {
+                using FT = std::decay_t<decltype(fut)>;
+                using T = typename FT::value_type;
+                using R = await_result<std::decay_t<T>>;
+                Ctx *cp = &c;
+                auto report = [cp, w, f](R r) {
+                    long out = 0, val = 0;
+                    try {
+                        if constexpr (std::is_void_v<T>) r.get();
+                        else val = to_long(*r);
+                    } catch (const await_canceled_exception &) {
+                        out = 2;
+                    } catch (...) {
+                        out = 1;
+                    }
+                    cp->readers[f]--;
+                    cp->log(w, out, val);
+                };
+                auto call = [&](auto cb) {
+                    am::t_frame = c.heap;
+                    if (c.heap) callback_await<FT &>(std::move(cb), fut);
+                    else callback_await_alloc<pool_storage, FT &>(g_pool, std::move(cb), fut);
+                    am::t_frame = false;
+                };
+                if (cap == 0) {
+                    call([report, tag = (int)w](R r) { (void)tag; report(r); });                    // trivially copyable captures
+                } else if (cap == 1) {
+                    call([report, tag = CopyTag((int)w)](R r) { (void)tag; report(r); });           // not nothrow-movable capture
+                } else {
+                    call([report, p = promise<int>()](R r) mutable { (void)p; report(r); });        // a captured promise
                 }
             });
             return st;
@@ -650,12 +701,12 @@ static Step begin(Ctx &c, const std::vector<long> &op) {
             st.snap = am::snap();
             if (mode == 2) st.sps = 1;
             if (c.heap) {
-                am::t_frame = true;
+                am::t_frame = c.heap;
                 auto a = locker_heap(c, w, m);
                 am::t_frame = false;
                 start_coro(c, std::move(a), mode);
             } else {
-                am::t_frame = true;
+                am::t_frame = c.heap;
                 async<void> a = locker_pool(g_pool, c, w, m);
                 am::t_frame = false;
                 start_coro(c, std::move(a), mode);
@@ -700,7 +751,7 @@ static Step begin(Ctx &c, const std::vector<long> &op) {
             if (!arity(4) || !inr(op[1], NG) || !inr(op[2], 9) || !inr(op[3], 2) || c.gkind[op[1]]) return rej();
             long g = op[1], k = op[2];
             st.snap = am::snap();
-            am::t_frame = true;
+            am::t_frame = c.heap;
             if (op[3] == 0) {
                 if (c.heap) c.gens[g].emplace(gen_heap(g, k));
                 else c.gens[g].emplace(gen_pool(g_pool, g, k));
@@ -712,12 +763,33 @@ static Step begin(Ctx &c, const std::vector<long> &op) {
             c.gkind[g] = 1 + op[3];
             return st;
         }
-        case 21: {  // GNext g how arg   (how % 3: 0 next as bool, 1 gen() as future, 2 co_await next; how >= 3: temporary argument)
-            if (!arity(4) || !inr(op[1], NG) || !inr(op[2], 6) || !(inr(op[2] % 3, 2) || (op[2] % 3 == 2 && c.coro)) || !c.gkind[op[1]]) return rej();
+        case 21: {  // GNext g how arg   (how % 3: 0 next as bool, 1 gen() as future, 2 co_await next; 3..5: temporary argument;
+                   //                    6 iterator ++it, 7 iterator it++, 8 range-for over the rest)
+            if (!arity(4) || !inr(op[1], NG) || !inr(op[2], 9) || !(inr(op[2] % 3, 2) || (op[2] % 3 == 2 && c.coro) || op[2] >= 6) || !c.gkind[op[1]]) return rej();
             long g = op[1], how = op[2] % 3;
             bool tmp = op[2] >= 3;
             bool done = c.gkind[g] == 1 ? c.gens[g]->done() : c.gens2[g]->done();
+            if (op[2] >= 6) {
+                if (c.gkind[g] != 1 || (op[2] < 8 && done)) return rej();
+                generator<int> &gen = *c.gens[g];
+                st.snap = am::snap();
+                if (op[2] == 8) {
+                    long last = -1;
+                    for (int v : gen) last = v;
+                    st.res = last;
+                } else {
+                    if (c.gsteps[g] == 0 || !c.git[g]) c.git[g].emplace(c.gsteps[g] == 0 ? gen.begin() : generator<int>::iterator(gen, true));
+                    if (c.gsteps[g] != 0) {
+                        if (op[2] == 6) ++*c.git[g];
+                        else (*c.git[g])++;
+                    }
+                    st.res = gen.done() ? -1 : **c.git[g];
+                }
+                c.gsteps[g]++;
+                return st;
+            }
             if (how == 1 && done) return rej();
+            c.gsteps[g]++;
             st.snap = am::snap();
             c.garg = (int)op[3];
             c.gtmp = tmp;
@@ -753,9 +825,11 @@ static Step begin(Ctx &c, const std::vector<long> &op) {
         case 22: {  // GDestroy g
             if (!arity(2) || !inr(op[1], NG) || !c.gkind[op[1]]) return rej();
             st.snap = am::snap();
+            c.git[op[1]].reset();
             c.gens[op[1]].reset();
             c.gens2[op[1]].reset();
             c.gkind[op[1]] = 0;
+            c.gsteps[op[1]] = 0;
             return st;
         }
         case 40: {  // CfStart k mode v r
